@@ -140,11 +140,17 @@ impl<R: BufRead> Iterator for Sequences<R> {
 
 pub fn get_reader(path: &str) -> Result<BufReader<Box<dyn Read + Sync + Send>>, String> {
     if path == "-" {
+        #[cfg(kmertools_verif)]
+        if let Some(sim) = verif_rt::io::sim_stdin() {
+            return Ok(BufReader::new(sim));
+        }
         let stdin = io::stdin();
         Ok(BufReader::new(Box::new(stdin)))
     } else {
         let is_zip = path.ends_with(".gz");
         let file = File::open(path).map_err(|_| format!("Unable to open: {}", path))?;
+        #[cfg(kmertools_verif)]
+        let file = verif_rt::io::SimRead::new(file, path);
         if is_zip {
             let decoder = flate2::read::GzDecoder::new(file);
             Ok(BufReader::new(Box::new(decoder)))
